@@ -20,8 +20,9 @@ Inductive case :=
    function mode: `var __r = main();` = statement + call node + callee; then the
    `var` statement inside main; epilogue `__done(1, __r);` = statement + call +
    callee + two argument identifiers + literal *)
-Definition off (mode : Z) : Z := if mode =? 0 then 0 else 6.
-Definition epi (mode : Z) : Z := if mode =? 0 then 0 else 5.
+(* mode 2: main entered through Value.Call: only the `var` statement of main precedes the model's polls *)
+Definition off (mode : Z) : Z := if mode =? 0 then 0 else if mode =? 2 then 1 else 6.
+Definition epi (mode : Z) : Z := if mode =? 0 then 0 else if mode =? 2 then 0 else 5.
 
 Definition is_done (o : outcome) : bool := match o with ONormal | OReturned _ => true | _ => false end.
 
